@@ -58,6 +58,7 @@ def gen_case(rng, npools=1, style="mix", stop=True, cancels=True):
     ops = []
     cur = clock
     ntask = 0
+    tpool = []
     stopped = set()
     for _ in range(rng.randint(4, 24)):
         k = rng.random()
@@ -67,6 +68,7 @@ def gen_case(rng, npools=1, style="mix", stop=True, cancels=True):
             prio = None if pr < 0.5 else str(rng.choice([0, 1, 1, -1, 2, I64MIN, I64MAX]))
             ops.append({"op": "submit", "p": p, "body": gen_task(rng, uid, cur, style), "prio": prio})
             ntask += 1
+            tpool.append(p)
         elif k < 0.62:
             d = rng.random()
             deadline = U64 if d < 0.6 else (cur + rng.choice([1, 2, 5, 30]) * 1000 if d < 0.85 else rng.choice([0, cur]))
@@ -75,11 +77,13 @@ def gen_case(rng, npools=1, style="mix", stop=True, cancels=True):
             cur = min(U64 // 1000 * 1000, cur + rng.choice([1, 2, 5, 20, 200]) * 1000)
             ops.append({"op": "clock", "c": str(cur)})
         elif k < 0.80:
-            ops.append({"op": rng.choice(["wait", "wait", "take"]), "p": p, "t": rng.randrange(ntask)})
+            t = rng.randrange(ntask)   # a join handle asks the loop the task was submitted to
+            ops.append({"op": rng.choice(["wait", "wait", "take"]), "p": tpool[t], "t": t})
         elif k < 0.86 and cancels:
             ops.append({"op": "cancel", "t": rng.randrange(ntask)})
         elif k < 0.90:
-            ops.append({"op": "clean", "p": p, "t": rng.randrange(ntask)})
+            t = rng.randrange(ntask)
+            ops.append({"op": "clean", "p": tpool[t], "t": t})
         elif k < 0.96:
             ops.append({"op": rng.choice(["running", "size", "state"]), "p": p})
         elif stop:
@@ -94,14 +98,14 @@ def gen_case(rng, npools=1, style="mix", stop=True, cancels=True):
         ops.append({"op": "pass", "p": p, "deadline": str(U64)})
         ops.append({"op": "running", "p": p})
     for t in range(ntask):
-        ops.append({"op": "wait", "p": rng.randrange(npools) if npools > 1 and rng.random() < 0.3 else 0, "t": t})
+        ops.append({"op": "wait", "p": tpool[t], "t": t})
     if stop and rng.random() < 0.7:
         for p in range(npools):
             ops.append({"op": "stop", "p": p, "dur": str(3 * 10**6)})
             ops.append({"op": "state", "p": p})
             ops.append({"op": "running", "p": p})
         for t in range(min(ntask, 3)):
-            ops.append({"op": "wait", "p": 0, "t": t})
+            ops.append({"op": "wait", "p": tpool[t], "t": t})
         ops.append({"op": "submit", "p": 0, "body": [{"i": "return", "v": "1"}], "prio": None})
     return {"clock": str(clock), "pools": cfgs, "ops": ops, "kind": "pool%d_%s" % (npools, style), "stream": True}
 
